@@ -119,6 +119,7 @@ func runP2Edges(args []string) error {
 			lio = newLogIO()
 		}
 		model := tracelog.M{"err": e.Model["err"]}
+		curDelegate = &recDelegate{}
 		switch e.Op {
 		case "verify":
 			vo := runVerify(index, g, viaHook, lio)
@@ -141,6 +142,8 @@ func runP2Edges(args []string) error {
 		}
 		model["post"] = e.Post
 		ev["model"] = model
+		ev["dlg"] = curDelegate.json(work)
+		curDelegate = nil
 		after, err := sandbox.Take(work)
 		if err != nil {
 			return err
